@@ -1,7 +1,7 @@
 (** Extraction of the translated library model (Gen/PropLib.v) for the C10 correspondence check.
     ExtrOcamlBasic only; N/positive/nat stay Coq inductives. *)
 From Coq Require Import Extraction ExtrOcamlBasic.
-From Pi2 Require Import ML.Syntax ML.Subst Lib.Term Gen.PropLib.
+From Pi2 Require Import ML.Syntax ML.Subst Lib.Term Gen.PropLib Lib.NthDef.
 Extraction Language OCaml.
 Extraction "lib_model.ml" pat_eqb dispatch static_conc uses_only trace psize conc term_of
-  tautology_axioms propositional_axioms all_class_axioms n_entry_points match_single.
+  tautology_axioms propositional_axioms all_class_axioms n_entry_points match_single conj_nth.
